@@ -31,6 +31,7 @@ import (
 	"context"
 	"fmt"
 	"math/rand"
+	"os"
 	"regexp"
 	"sort"
 	"strconv"
@@ -85,6 +86,13 @@ func genCase(i int, r *rand.Rand) caseCfg {
 	c.PlanStyle = r.Intn(4)
 	c.BufSize = []int{64, 4096, 64 * 1024}[r.Intn(3)]
 	c.Gated = r.Intn(4) != 0
+	if os.Getenv("C18_FOCUS") != "" { // debugging aid: only the refusal-report clause, cheapest configuration
+		c.Mode = config.ReplayModeSync
+		c.Terminal = terminals[1+i%2]
+		c.Snapshot = "empty"
+		c.NClean = 1
+		c.Gated = true
+	}
 	return c
 }
 
@@ -101,6 +109,9 @@ func main() {
 	run.Watchdog(28 * time.Minute)
 	run.MinDistinct(12)
 	n := run.N(45, 2000)
+	if v, err := strconv.Atoi(os.Getenv("C18_FOCUS")); err == nil && v > 0 {
+		n = v
+	}
 	run.Set("double_commands_registered_from_ref_table", len(added))
 	run.Assume("cluster double (fakeredis): one cluster-wide lock serialises all nodes; slots by ref.HashSlot; MOVED / CROSSSLOT decided as Redis 7 getNodeByQuery does at queue time and again at EXEC over all queued keys; a MULTI block is executed only by the owner of its single slot")
 	run.Assume("the double routes — and answers COMMAND GETKEYS for — every command of the reference key table by the reference key positions (fakeredis.RegisterRefCommands); business writes are logged and answered +OK, not executed (no type clashes); the reserved bookkeeping namespace is executed for real")
@@ -150,6 +161,12 @@ func attribute(err error, base int64, w *workload) *unit {
 
 func oneCase(run *harness.Run, d *driver, key string, idx int, r *rand.Rand, cc caseCfg) {
 	hist := fmt.Sprintf("c%d", idx)
+	t0 := time.Now()
+	lap := func(what string) {
+		if os.Getenv("C18_TIMING") != "" {
+			fmt.Printf("%s: %-28s %v\n", key, what, time.Since(t0).Round(time.Millisecond))
+		}
+	}
 	cl := fakeredis.NewCluster(cc.Nodes, fakeredis.Options{Permissive: true, LogOnly: func(cmd string, args [][]byte) bool {
 		return len(args) == 0 || !drive.Reserved(args[0])
 	}})
@@ -172,6 +189,7 @@ func oneCase(run *harness.Run, d *driver, key string, idx int, r *rand.Rand, cc 
 		run.Inconclusive("%s: start-up bookkeeping (VerifNewOutput): %v", key, err)
 		return
 	}
+	lap("open (VerifNewOutput)")
 	ids := sourceRunIDs()
 	ctx := context.Background()
 	if _, err := out.StartPoint(ctx, ids); err != nil {
@@ -197,6 +215,7 @@ func oneCase(run *harness.Run, d *driver, key string, idx int, r *rand.Rand, cc 
 		run.Inconclusive("%s: watchdog: snapshot replay did not return", key)
 		return
 	}
+	lap("snapshot replay")
 	snapReqs := cl.Requests()
 	snapBlocks, _ := blocksOf(snapReqs)
 	if snapErr != nil {
@@ -223,6 +242,7 @@ func oneCase(run *harness.Run, d *driver, key string, idx int, r *rand.Rand, cc 
 		return
 	}
 	reqBase := cl.ReqCount()
+	lap("second StartPoint")
 
 	// ---- the stream
 	g := &genCtx{r: r, hist: hist, filter: filter, black: black, cl: cl}
@@ -269,6 +289,7 @@ func oneCase(run *harness.Run, d *driver, key string, idx int, r *rand.Rand, cc 
 	}
 	w.bytes = buf.Bytes()
 
+	lap("workload generated")
 	// monitor: which unit ids have been applied by an EXEC
 	var mu sync.Mutex
 	applied := map[string]bool{}
@@ -361,11 +382,13 @@ func oneCase(run *harness.Run, d *driver, key string, idx int, r *rand.Rand, cc 
 			}
 		}
 	}
+	lap("Send returned")
 	if !cl.WaitIdle(150*time.Millisecond, 20*time.Second) {
 		run.Inconclusive("%s: cluster double did not become idle after Send returned", key)
 		return
 	}
 	cl.SetOnApplied(nil)
+	lap("idle")
 
 	// ---- observe
 	all := cl.Requests()
@@ -460,7 +483,7 @@ func oneCase(run *harness.Run, d *driver, key string, idx int, r *rand.Rand, cc 
 				what := fmt.Sprintf("Send stopped with %q while only units whose keys share a slot (by ref, after the filter) had been handed out: %v", cls, sendErr)
 				ex := map[string]any{"send_error": sendErr.Error(), "units_not_applied": unapplied()}
 				if victim != nil {
-					sig += "|" + string(victim.Class) + "|" + victim.Variant + "|" + victim.keyClassSig()
+					sig += "|" + string(victim.Class)
 					ex["refused_unit"] = victim.describe()
 					ex["refused_unit_requests"] = trace(victim.ID)
 					outcomeOf[victim.ID] = "refused"
@@ -486,11 +509,11 @@ func oneCase(run *harness.Run, d *driver, key string, idx int, r *rand.Rand, cc 
 			// nothing of it may have been sent
 			var markerHit *blockInfo
 			for _, bi := range infos {
-				if bi.Marker != nil && bi.Marker.EndOffset >= base+w.poison.End {
+				if bi.Marker != nil && bi.Marker.EndOffset == base+u.End {
 					markerHit = bi
 				}
 			}
-			if len(reqsOf[u.ID]) > 0 || (u.Poison && markerHit != nil) {
+			if len(reqsOf[u.ID]) > 0 || markerHit != nil {
 				role := "refusable-unit"
 				if u.After {
 					role = "unit-behind-refusable-unit"
@@ -505,7 +528,7 @@ func oneCase(run *harness.Run, d *driver, key string, idx int, r *rand.Rand, cc 
 				} else if markerHit != nil {
 					ex["block"] = markerHit.render()
 				}
-				run.Violation(fmt.Sprintf("%s-sent|%s|%s|%s|%s|%s", role, w.poison.Class, w.poison.Variant, how, modeS, w.poison.keyClassSig()), key,
+				run.Violation(fmt.Sprintf("%s-sent|%s|%s|%s|%s", role, w.poison.Class, coarse(w.poison.Variant), how, modeS), key,
 					fmt.Sprintf("unit %d (%s, %s) must stop the replay before anything of it or behind it is sent; the cluster received %d request(s) carrying the id of unit %d (%s)",
 						w.poison.Idx, w.poison.Class, w.poison.Variant, len(reqsOf[u.ID]), u.Idx, role), wit(ex))
 				outcomeOf[u.ID] = "sent-" + how
@@ -520,7 +543,7 @@ func oneCase(run *harness.Run, d *driver, key string, idx int, r *rand.Rand, cc 
 						outcomeOf[u.ID] = "not-reached"
 					}
 				case selfReturned && sendErr == nil:
-					run.Violation(fmt.Sprintf("refusable-unit-dropped-silently|%s|%s|%s", u.Class, u.Variant, modeS), key,
+					run.Violation(fmt.Sprintf("refusable-unit-dropped-silently|%s|%s|%s", u.Class, coarse(u.Variant), modeS), key,
 						"Send returned nil after a unit that cannot be routed: it was neither sent nor reported", wit(map[string]any{"unit": u.describe()}))
 					outcomeOf[u.ID] = "dropped"
 				default:
@@ -546,7 +569,7 @@ func oneCase(run *harness.Run, d *driver, key string, idx int, r *rand.Rand, cc 
 			outcomeOf[u.ID] = "committed"
 			for _, bi := range bis {
 				if !sameBusiness(bi, u) || len(bi.IDs) != 1 {
-					run.Violation(fmt.Sprintf("unit-altered|%s|%s|%s", u.Class, u.Variant, modeS), key,
+					run.Violation(fmt.Sprintf("unit-altered|%s|%s|%s", u.Class, coarse(u.Variant), modeS), key,
 						fmt.Sprintf("the block carrying unit %d does not hold exactly the unit's forwarded commands (approximate replay)", u.Idx),
 						wit(map[string]any{"unit": u.describe(), "block": bi.render()}))
 					outcomeOf[u.ID] = "altered"
@@ -556,6 +579,7 @@ func oneCase(run *harness.Run, d *driver, key string, idx int, r *rand.Rand, cc 
 		}
 	}
 
+	lap("judged")
 	// ---- coverage
 	for _, u := range w.units {
 		oc := outcomeOf[u.ID]
@@ -578,20 +602,7 @@ func oneCase(run *harness.Run, d *driver, key string, idx int, r *rand.Rand, cc 
 			run.Seen("brace_shapes", s)
 		}
 		if u.Variant != "" {
-			v := u.Variant
-			if i := strings.Index(v, ":"); i > 0 && (strings.HasPrefix(v, "alone") || strings.HasPrefix(v, "in-transaction")) {
-				v = v[:i]
-			}
-			if strings.HasPrefix(v, "in-transaction-pos") {
-				v = "in-transaction"
-			}
-			if strings.HasPrefix(v, "transaction-command-") {
-				v = "transaction-command-withheld"
-			}
-			if i := strings.Index(v, "|transaction-odd-command"); i > 0 {
-				v = v[:i] + "|transaction"
-			}
-			run.Seen("unit_variants", string(u.Class)+"/"+v)
+			run.Seen("unit_variants", string(u.Class)+"/"+coarse(u.Variant))
 		}
 		if oc != "unknown" && oc != "not-applied" && oc != "not-reached" {
 			run.Distinct(fmt.Sprintf("%s|%s|%s|%s", modeS, role, u.keyClassSig(), strings.SplitN(oc, ":", 2)[0]))
@@ -607,6 +618,23 @@ func oneCase(run *harness.Run, d *driver, key string, idx int, r *rand.Rand, cc 
 		run.Sample(map[string]any{"case": key, "config": cc.String(), "send_error_class": cls, "units": us,
 			"stream_blocks": len(blocks), "snapshot_blocks": len(snapBlocks), "snapshot_keys": len(snap.Keys)})
 	}
+}
+
+// coarse strips the per-instance detail (command name, positions) from a unit variant label.
+func coarse(v string) string {
+	if i := strings.Index(v, ":"); i > 0 && (strings.HasPrefix(v, "alone") || strings.HasPrefix(v, "in-transaction")) {
+		v = v[:i]
+	}
+	if strings.HasPrefix(v, "in-transaction-pos") {
+		v = "in-transaction"
+	}
+	if strings.HasPrefix(v, "transaction-command-") {
+		v = "transaction-command-withheld"
+	}
+	if i := strings.Index(v, "|transaction-odd-command"); i > 0 {
+		v = v[:i] + "|transaction"
+	}
+	return v
 }
 
 func countDirectBusiness(direct []fakeredis.CReq) int {
